@@ -89,6 +89,36 @@ func propC07(c *Ctx) {
 	c.Rule("R7.3", "a nullable result pointer is nil-tested before it is dereferenced", 3)
 	existsFn := w.Fn("jrpc2", "Error.Exists")
 	nhError := w.Fn("jrpc2", "(*NumHash).error")
+	// the test every fetch path relies on: an error member with ANY non-zero code exists (providers
+	// answer 2xx with positive codes too: 429 rate limits, geth's 3); false only when the code is zero
+	{
+		fCode := w.Field("jrpc2", "Error", "Code")
+		isCode := func(v ssa.Value) bool { return fieldIsOrLoad(stripConv(v), fCode) }
+		isZero := func(v ssa.Value) bool { n, ok := constInt(v); return ok && n == 0 }
+		zeroT, _ := cmpEdgesV(existsFn, token.EQL, isCode, isZero)
+		_, zeroF := cmpEdgesV(existsFn, token.NEQ, isCode, isZero)
+		zero := append(zeroT, zeroF...)
+		good, n := true, 0
+		for _, r := range returnsOf(existsFn) {
+			for _, lf := range phiLeaves(returnValues(r)[0]) {
+				n++
+				if b, ok := lf.Val.(*ssa.BinOp); ok && b.Op == token.NEQ && isCode(b.X) && isZero(b.Y) {
+					continue
+				}
+				if k, ok := lf.Val.(*ssa.Const); ok && k.Value != nil && k.Value.String() == "true" {
+					continue
+				}
+				if lf.Phi != nil && lf.Pred != nil && (edgeGuarded(existsFn, lf.Pred, lf.Phi.Block(), zero) || guardedByEdges(existsFn, terminator(lf.Pred), zero)) {
+					continue // whatever is answered here, the code is zero
+				}
+				if guardedByEdges(existsFn, r, zero) {
+					continue
+				}
+				good = false
+			}
+		}
+		c.Check("R7.2", "Error.Exists/true-for-every-nonzero-code", existsFn.Pos(), good && n > 0, "Exists() may answer false only when Code == 0 (an error member with a positive code is an error too)")
+	}
 	for _, fn := range fns {
 		for ord, call := range callsToFn(fn, do) {
 			key := fmt.Sprintf("%s/do#%d", fnName(fn), ord+1)
